@@ -72,6 +72,19 @@ type PBase struct {
 
 type Wrapper struct{ Shape }
 
+// Lener is implemented by List and by everything that embeds it.
+type Lener interface{ Len() int }
+
+// Chain calls ChainInner: an instance of Chain refers to an instance of ChainInner.
+func Chain[T any](v T, n int) []T { return ChainInner([]T{v}, n) }
+
+func ChainInner[T any](vs []T, n int) []T {
+	for len(vs) < n {
+		vs = append(vs, vs[0])
+	}
+	return vs
+}
+
 func Apply[T any](v T, fs ...func(T) T) T {
 	for _, f := range fs {
 		v = f(v)
@@ -92,6 +105,11 @@ type Rect struct {
 type PRect struct {
 	*lib.Base
 }
+
+// IntList promotes the methods of an instantiated generic type: its wrappers call instances.
+type IntList struct{ *lib.List[int] }
+
+type StrList struct{ lib.List[string] }
 
 func Ints() *lib.List[int] {
 	l := &lib.List[int]{}
@@ -130,6 +148,31 @@ func Total() int { return lib.Sum(1, 2, 3) + int(lib.Sum(1.5, 2.5)) }
 		"\tn += lib.Apply(%d, func(i int) int { return i + 1 }, func(i int) int { return i * 2 })\n",
 		"\tpr := mid.PRect{Base: &lib.Base{}}\n\tvar sh lib.Shape = pr\n\tn += sh.Area() + %d\n",
 		"\tfor _, s := range mid.Shapes() {\n\t\tn += s.Area() + %d\n\t}\n",
+	}
+	uses = append(uses,
+		"\tvar ln lib.Lener = mid.IntList{List: mid.Ints()}\n\tn += ln.Len() + %d\n",
+		"\tsl := &mid.StrList{}\n\tvar ln lib.Lener = sl\n\tpush := sl.Push\n\tpush(\"x\")\n\tn += ln.Len() + %d\n",
+		"\tn += len(lib.Chain(%d, 3))\n",
+		"\tn += len(lib.Chain(\"s\", %d))\n",
+	)
+	// zbig: a package that takes long to build and needs the INNER shared functions (the
+	// instances and instantiation wrappers the others reach only through an outer shared
+	// function) but not the outer ones; it is built first. A builder that has finished its
+	// own functions but still waits for zbig must keep others waiting as well.
+	{
+		var b strings.Builder
+		b.WriteString("// Package zbig is slow to build.\npackage zbig\n\nimport (\n\t\"example.com/irp/lib\"\n\t\"example.com/irp/mid\"\n)\n\n")
+		b.WriteString("// First needs the inner shared functions.\nfunc First() int {\n\tn := mid.Ints().Len()\n\tls := &lib.List[string]{}\n\tls.Push(\"x\")\n\tn += ls.Len()\n\tn += len(lib.ChainInner([]int{1}, 2)) + len(lib.ChainInner([]string{\"a\"}, 2))\n\treturn n\n}\n\n")
+		nFill := 300 + rng.IntN(300)
+		for k := 0; k < nFill; k++ {
+			fmt.Fprintf(&b, "func fill%d(a, b int) int {\n\tfor i := 0; i < a; i++ {\n\t\tif i%%%d == 0 {\n\t\t\tb += i\n\t\t} else {\n\t\t\tb -= %d\n\t\t}\n\t}\n\tswitch {\n\tcase a > b:\n\t\treturn a\n\tcase a < b:\n\t\treturn b\n\t}\n\treturn a + b\n}\n\n", k, 2+k%5, k)
+		}
+		b.WriteString("// Use keeps the fillers referenced.\nfunc Use() int {\n\tn := 0\n")
+		for k := 0; k < nFill; k += 7 {
+			fmt.Fprintf(&b, "\tn += fill%d(1, 2)\n", k)
+		}
+		b.WriteString("\treturn n\n}\n")
+		f["zbig/zbig.go"] = b.String()
 	}
 	for t := 0; t < nTop; t++ {
 		var b strings.Builder
